@@ -158,6 +158,8 @@ def build_items(ctx):
         n_sp += 1
     items.append(("pin", "pin:importer_holds_captured_name", mm.PIN_C07_FILES, mm.PIN_C07_LINES, mm.PIN_C07_EVENTS))
     items.append(("cat", "cat:conditional_import", mm.PIN_COND_FILES, mm.PIN_COND_LINES, mm.PIN_COND_EVENTS))
+    for ident, files, lines, events in mm.local_copy_cases():
+        items.append(("cat", ident, files, lines, events))
     # drop duplicates (same files) among the enumerated projects
     uniq = []
     for it in items:
@@ -229,7 +231,7 @@ def run(ctx):
                                   "lookup): scalars are read through `m.x` only, every binding is prefixed with its "
                                   "module's name; pinned by pin:importer_holds_captured_name",
         "single_path_spelling": "outside the spelling dimension every import of a module uses the plain spelling "
-                                "(a module reached as `m` and `./m` initialises twice); pinned by spelling:dot+plain",
+                                "(a module reached as `m` and `./m` initialises twice); pinned by spelling:unnormalised_path",
         "no_parent_directory_imports": "`..` does not parse in an import path, so modules in sub/ import only from sub/",
         "no_function_local_imports": "`import` inside a function body compiles but dies at run time (`m is not in "
                                      "scope` at make_function); imports are placed at module level or in blocks"}
@@ -240,7 +242,7 @@ def run(ctx):
                 "2..3 modules whose nodes are all reachable from the entry x import form per edge {import m | import "
                 "names from m | both, either order} x placement of each import {%s} relative to the importer's own "
                 "side-effecting statements x statement order of an importer's imports x directory placement (same "
-                "directory / sub/), duplicates by source text removed%s; negative twins: every DAG x every edge x 10 "
+                "directory / sub/), duplicates by source text removed%s; negative twins: every DAG x every edge x 6 "
                 "violation kinds; seeded part: random DAGs on 4 and 5 modules incl. imports in executed / non-executed "
                 "blocks.  Each project = 2 evaluations (`run`; `compile`+`execute`), each compared on exact stdout "
                 "and the H-MOD event sequence.  Non-trivial/distinct = distinct project text with >= 1 import edge."
